@@ -42,6 +42,7 @@
 #include <fcppt/parse/operators/repetition.hpp>
 #include <fcppt/parse/operators/repetition_plus.hpp>
 #include <fcppt/parse/operators/sequence.hpp>
+#include <fcppt/parse/skipper/basic_space.hpp>
 #include <fcppt/parse/skipper/epsilon.hpp>
 #include <fcppt/parse/skipper/repetition_decl.hpp>
 #include <fcppt/parse/skipper/repetition_impl.hpp>
@@ -244,7 +245,7 @@ inline bool parse_gexpr(
     arity = 2;
   else if (n.name == "rep" || (!skipper && (n.name == "opt" || n.name == "plus" || n.name == "not" || n.name == "fatal")))
     arity = 1;
-  else if (!(skipper ? n.name == "eps" : n.name == "any"))
+  else if (!(skipper ? (n.name == "eps" || n.name == "space") : n.name == "any"))
     return false;
   if (want_arg != has_arg)
     return false;
@@ -329,6 +330,20 @@ private:
     return r;
   }
 
+  // sets of one or two characters go through the initializer_list constructor, the others through the
+  // container constructor; chars() must hand back what was put in
+  template <typename Set>
+  static Set make_cset(std::vector<long long> const &_v)
+  {
+    set_t const expect{make_set(_v)};
+    Set r{_v.size() == 1   ? Set{static_cast<Ch>(_v[0])}
+          : _v.size() == 2 ? Set{static_cast<Ch>(_v[0]), static_cast<Ch>(_v[1])}
+                           : Set{make_set(_v)}};
+    if (r.chars() != expect)
+      throw std::logic_error{"chars() differs from the constructor argument"};
+    return r;
+  }
+
   template <typename S>
   skip_base<Ch> const *add_skipper(S &&_s)
   {
@@ -341,10 +356,13 @@ private:
     gnode const &n = sast_.nodes[_i];
     if (n.name == "eps")
       return this->add_skipper(fsk::epsilon{});
+    if (n.name == "space")
+      // the library's own whitespace skipper: repetition over a concrete (not type-erased) char_set skipper
+      return this->add_skipper(fsk::basic_space<Ch>());
     if (n.name == "lit")
       return this->add_skipper(fsk::basic_literal<Ch>{static_cast<Ch>(n.arg[0])});
     if (n.name == "cset")
-      return this->add_skipper(fsk::basic_char_set<Ch>{make_set(n.arg)});
+      return this->add_skipper(make_cset<fsk::basic_char_set<Ch>>(n.arg));
     if (n.name == "seq")
     {
       sk_t a{this->build_skipper(n.kids[0])};
@@ -371,7 +389,7 @@ private:
     if (n.name == "lit")
       return this->add(fp::basic_literal<Ch>{static_cast<Ch>(n.arg[0])});
     if (n.name == "cset")
-      return this->add(fp::make_ignore(fp::basic_char_set<Ch>{make_set(n.arg)}));
+      return this->add(fp::make_ignore(make_cset<fp::basic_char_set<Ch>>(n.arg)));
     if (n.name == "str")
       return this->add(fp::basic_string<Ch>{to_text<Ch>(n.arg)});
     if (n.name == "seq")
